@@ -66,51 +66,11 @@ mod full {
 
     /// the examples the statement demands for one sentence
     fn expected(s: &Sentence, cfg: (u8, u8, u8, u8), words: &[&str], max_len: u8) -> Vec<(Vec<(String, f64)>, f64)> {
-        let (cw, cn, tw, tn) = (cfg.0 as isize, cfg.1 as isize, cfg.2 as isize, cfg.3 as isize);
-        let chars: Vec<char> = s.as_raw_text().chars().collect();
-        let types = s.char_types();
-        let n = chars.len() as isize;
+        let per_boundary = crate::trainref::features(s, cfg, words, max_len);
         let mut out = vec![];
-        for (i, b) in s.boundaries().iter().enumerate() {
+        for (b, mut feats) in s.boundaries().iter().zip(per_boundary) {
             if *b == B::Unknown {
                 continue;
-            }
-            let i = i as isize;
-            let mut feats: Vec<String> = vec![];
-            // n-grams of length 1..N lying inside the window [i+1-w, i+1+w) of the boundary, relative position of their start
-            for l in 1..=cn {
-                for j in 0..n {
-                    if j >= i + 1 - cw && j + l <= (i + 1 + cw).min(n) {
-                        let g: String = chars[j as usize..(j + l) as usize].iter().collect();
-                        feats.push(format!("C:{}:{}", g, j - i - 1));
-                    }
-                }
-            }
-            for l in 1..=tn {
-                for j in 0..n {
-                    if j >= i + 1 - tw && j + l <= (i + 1 + tw).min(n) {
-                        feats.push(format!("T:{:?}:{}", &types[j as usize..(j + l) as usize], j - i - 1));
-                    }
-                }
-            }
-            // one dictionary feature per dictionary-word occurrence touching the boundary
-            for w in words {
-                let wc: Vec<char> = w.chars().collect();
-                let wl = wc.len() as isize;
-                for st in 0..=(n - wl).max(-1) {
-                    if st < 0 || chars[st as usize..(st + wl) as usize] != wc[..] {
-                        continue;
-                    }
-                    let len = wl.min(max_len as isize);
-                    let en = st + wl; // exclusive end
-                    if i == st - 1 {
-                        feats.push(format!("D:Left:{}", len));
-                    } else if st <= i && i < en - 1 {
-                        feats.push(format!("D:Inside:{}", len));
-                    } else if i == en - 1 {
-                        feats.push(format!("D:Right:{}", len));
-                    }
-                }
             }
             feats.sort();
             let mut row: Vec<(String, f64)> = vec![];
